@@ -229,7 +229,7 @@ func init() {
 				compareAll("bad-section-affects-other-lint:"+n, "an inapplicable section for "+n, cfg, map[string]bool{n: true}, bad)
 				// the targeted lint itself
 				g.SetConfiguration(cfg)
-				checkTarget := func(what string, r *lint.LintResult, pv interface{}) {
+				checkTarget := func(what string, r *lint.LintResult, pv interface{}, scoped bool) {
 					if pv != nil {
 						out.Violate("C11|bad-section-panics:"+n, fmt.Sprintf("inapplicable section for %s makes linting panic on %s: %v", n, what, pv), bad, "fatal with a configuration error", fmt.Sprint(pv))
 						return
@@ -237,8 +237,8 @@ func init() {
 					if r == nil {
 						return
 					}
-					if r.Status == lint.NA && !strings.Contains(r.Details, "configure") {
-						return // out of scope for this object: the lint is not configured at all
+					if scoped && r.Status == lint.NA && !strings.Contains(r.Details, "configure") {
+						return // certificate out of the scope of the lint's source: the lint is not instantiated at all
 					}
 					if r.Status != lint.Fatal || !strings.Contains(r.Details, "A fatal error occurred while attempting to configure "+n) {
 						out.Violate("C11|bad-section-not-config-error:"+n, fmt.Sprintf("inapplicable section for %s yields (%d, %q) on %s instead of a fatal configuration error", n, r.Status, r.Details, what), bad,
@@ -254,14 +254,14 @@ func init() {
 							r = zlint.LintCertificate(cc.Cert)
 						}()
 						if r != nil {
-							checkTarget("cert "+cc.File, r.Results[n], pv)
+							checkTarget("cert "+cc.File, r.Results[n], pv, true)
 						} else {
-							checkTarget("cert "+cc.File, nil, pv)
+							checkTarget("cert "+cc.File, nil, pv, true)
 						}
 					}
 				}
 				if l := g.RevocationListLints().ByName(n); l != nil {
-					for _, cc := range corpus.CRLs[:minInt(6, len(corpus.CRLs))] {
+					for _, cc := range realCRLVariants(corpus) {
 						var r *zlint.ResultSet
 						var pv interface{}
 						func() {
@@ -269,9 +269,9 @@ func init() {
 							r = zlint.LintRevocationList(cc.CRL)
 						}()
 						if r != nil {
-							checkTarget("crl "+cc.File, r.Results[n], pv)
+							checkTarget("crl "+cc.File, r.Results[n], pv, false)
 						} else {
-							checkTarget("crl "+cc.File, nil, pv)
+							checkTarget("crl "+cc.File, nil, pv, false)
 						}
 					}
 				}
@@ -400,7 +400,8 @@ func init() {
 				continue
 			}
 			baseStatus := 3 + rng.Intn(4)
-			s := &Script{Name: name, Src: src, Cfg: "ok", App: "true", Exe: "res", ExeStatus: baseStatus, ShowConf: true}
+			applies := rng.Intn(3) != 0
+			s := &Script{Name: name, Src: src, Cfg: "ok", App: map[bool]string{true: "true", false: "false"}[applies], Exe: "res", ExeStatus: baseStatus, ShowConf: true}
 			// decoder's message for an ill-typed table, from go-toml directly
 			errmsg := ""
 			for _, sc := range secs {
@@ -454,8 +455,8 @@ func init() {
 					caseNt = "(NtErr " + cqBytes(msg) + ")"
 				}
 			}
-			term := fmt.Sprintf("(%s, %s, %s, %s, %s, %s, %s, %s, %s)", kindCoq[kind], cqBytes(name), cqBytes(src), cqList(items), cqBytes(errmsg), caseNt,
-				cqZ(int64(baseStatus)), ao.Coq(), o.Coq())
+			term := fmt.Sprintf("(%s, %s, %s, %s, %s, %s, %s, %s, %s, %s)", kindCoq[kind], cqBytes(name), cqBytes(src), cqList(items), cqBytes(errmsg), caseNt,
+				cqZ(int64(baseStatus)), cqBool(applies), ao.Coq(), o.Coq())
 			if !seen[term] {
 				seen[term] = true
 				own := "absent"
@@ -464,7 +465,7 @@ func init() {
 						own = sc.kind
 					}
 				}
-				out.Add("cfg", Case{Coq: term, Tag: fmt.Sprintf("%s/%s/%s/%d", kind, own, o.Kind, o.Status), Desc: map[string]interface{}{"kind": kind, "lint": name, "toml": text, "observed": o}})
+				out.Add("cfg", Case{Coq: term, Tag: fmt.Sprintf("%s/%s/app=%v/%s/%d", kind, own, applies, o.Kind, o.Status), Desc: map[string]interface{}{"kind": kind, "lint": name, "toml": text, "observed": o}})
 			}
 			// direct monitor: never a panic, and an inapplicable own section is a configuration error
 			own := ""
